@@ -200,8 +200,29 @@ PROPS["C06"] = {
                     "more_results_in_region, more_results, partial flags)"],
     "jobs": [
         {"name": "scan_forward", "pkg": "root", "entry": "VerifScan", "reach": ["scanned"],
-         "params": {"quick": {"ROWS": 2, "REGIONS": 2, "RESP": 3, "NROWS": 2, "REVERSED": 0}, "thorough": {"ROWS": 3, "REGIONS": 3, "RESP": 4, "NROWS": 2, "REVERSED": 0}}},
+         "params": {"quick": {"ROWS": 2, "REGIONS": 2, "RESP": 3, "NROWS": 2, "REVERSED": 0, "KEYL": 1}, "thorough": {"ROWS": 3, "REGIONS": 3, "RESP": 4, "NROWS": 2, "REVERSED": 0, "KEYL": 1}}},
         {"name": "scan_reversed", "pkg": "root", "entry": "VerifScan", "reach": ["scanned"],
-         "params": {"quick": {"ROWS": 2, "REGIONS": 2, "RESP": 3, "NROWS": 2, "REVERSED": 1}, "thorough": {"ROWS": 3, "REGIONS": 3, "RESP": 4, "NROWS": 2, "REVERSED": 1}}},
+         "params": {"quick": {"ROWS": 2, "REGIONS": 2, "RESP": 3, "NROWS": 2, "REVERSED": 1, "KEYL": 1}, "thorough": {"ROWS": 3, "REGIONS": 3, "RESP": 4, "NROWS": 2, "REVERSED": 1, "KEYL": 1}}},
+        {"name": "scan_reversed_longkeys", "pkg": "root", "entry": "VerifScan", "reach": ["scanned"],
+         "params": {"quick": {"ROWS": 1, "REGIONS": 2, "RESP": 2, "NROWS": 2, "REVERSED": 1, "KEYL": 2}, "thorough": {"ROWS": 2, "REGIONS": 2, "RESP": 2, "NROWS": 2, "REVERSED": 1, "KEYL": 2}}},
+        {"name": "scan_forward_longkeys", "pkg": "root", "entry": "VerifScan", "reach": ["scanned"],
+         "params": {"quick": {"ROWS": 1, "REGIONS": 2, "RESP": 2, "NROWS": 2, "REVERSED": 0, "KEYL": 2}, "thorough": {"ROWS": 2, "REGIONS": 2, "RESP": 2, "NROWS": 2, "REVERSED": 0, "KEYL": 2}}},
+    ],
+}
+
+PROPS["C14"] = {
+    "files": SCAN_FILES,
+    "claim": "Against the model HBase of C06 (which also tracks the region scanners it has open): a scan ended at any point — run to "
+             "exhaustion, Close() after j Next calls, a non-retryable error on the i-th request, cancellation before the j-th Next, the "
+             "server declaring no more results while a region scanner is open — reports the error / cancellation exactly once and "
+             "io.EOF from then on, Close is idempotent, and after all spawned goroutines have run the server has no scanner of this scan "
+             "left open.",
+    "outside": "lease expiry on the server; the renew loop; scans created with the internal CloseScanner option over more than one response",
+    "assumptions": ["model server as in C06"],
+    "jobs": [
+        {"name": "scan_endings_forward", "pkg": "root", "entry": "VerifScanEndings", "reach": ["ended", "closed-early", "cancelled", "failed"],
+         "params": {"quick": {"ROWS": 2, "REGIONS": 2, "RESP": 3, "NROWS": 2, "REVERSED": 0, "KEYL": 1}, "thorough": {"ROWS": 3, "REGIONS": 2, "RESP": 4, "NROWS": 2, "REVERSED": 0, "KEYL": 1}}},
+        {"name": "scan_endings_reversed", "pkg": "root", "entry": "VerifScanEndings", "reach": ["ended", "closed-early", "cancelled", "failed"],
+         "params": {"quick": {"ROWS": 2, "REGIONS": 2, "RESP": 2, "NROWS": 2, "REVERSED": 1, "KEYL": 1}, "thorough": {"ROWS": 3, "REGIONS": 2, "RESP": 3, "NROWS": 2, "REVERSED": 1, "KEYL": 1}}},
     ],
 }
